@@ -15,7 +15,9 @@ additionally evaluated on the real answers by an independent Python reference):
   random_get    lengths {0,1,255,256,257,512,4096,2^20}: success, every byte of the region written,
                 nothing outside it
   proc_exit     codes in a forked child, exit status observed
-  thread-spawn  stub module instance, concurrent spawner threads: ids, start calls, child wiring
+  thread-spawn  stub module instance, concurrent spawner threads: ids, start calls, child wiring;
+                export lookup: directed + generated export tables with look-alike names (prefixes, extensions,
+                case variants, duplicates, positions, empty table), each export with its own marker function
 """
 import os
 import struct
@@ -253,6 +255,83 @@ def run_spawn(chk, h, tier, broken, model_ok):
     chk.coverage["spawn_combos"] = [list(c) for c in combos]
 
 
+EXACT = "wasi_thread_start"
+LOOKALIKES = ["wasi_thread_start_hook", "wasi_thread_start2", "wasi_thread_start_", "wasi_thread_startwasi_thread_start",
+              "wasi_thread_star", "wasi_thread", "wasi", "w", "", "WASI_THREAD_START", "Wasi_thread_start", "wasi_thread_Start",
+              "wasi-thread-start", "_wasi_thread_start", " wasi_thread_start", "wasi_thread_start ", "_start", "memory", "main",
+              "wasi_thread_stop", "xwasi_thread_start"]
+
+
+def spawnx_line(names, ncalls, argbase):
+    return f"spawnx {ncalls} {argbase} {len(names)}" + "".join(" " + wp.hexs(n.encode()) for n in names)
+
+
+def spawnx_expected(names, ncalls, argbase):
+    """The property: the entry is the FIRST export named exactly wasi_thread_start; none → every call returns a
+    negative value and nothing is spawned."""
+    idx = next((i for i, n in enumerate(names) if n == EXACT), None)
+    if idx is None:
+        return "ret " + (",".join(["-1"] * ncalls) or "-") + " ran - children 0"
+    rets = ",".join(str(t) for t in range(1, ncalls + 1)) or "-"
+    ran = ",".join(f"{idx}:{t}:{argbase + t - 1}:1" for t in range(1, ncalls + 1)) or "-"
+    return f"ret {rets} ran {ran} children {ncalls}"
+
+
+def spawn_lookup_tables(rng, tier):
+    t = []
+    # directed: no function exports at all; exact name alone / first / middle / last; duplicates; every look-alike
+    # alone, before the exact name, after it
+    t.append([])
+    t.append([EXACT])
+    t.append([EXACT, "_start", "memory"])
+    t.append(["_start", EXACT, "main"])
+    t.append(["_start", "main", EXACT])
+    t.append([EXACT, EXACT])
+    t.append(["_start", EXACT, "x", EXACT])
+    for la in LOOKALIKES:
+        t.append([la])
+        t.append([la, EXACT])
+        t.append([EXACT, la])
+        t.append(["_start", la, "main"])
+    t.append(["wasi_thread_start_hook", "wasi_thread_start2", EXACT, "wasi_thread_start"])
+    t.append(["wasi_thread_start_hook", "wasi_thread_start2", "wasi_thread"])
+    # generated
+    for _ in range(40 if tier == "quick" else 600):
+        k = rng.randrange(0, 9)
+        pool = LOOKALIKES + ([EXACT] * rng.choice([0, 1, 3, 6]))
+        t.append([rng.choice(pool) for _ in range(k)])
+    return t
+
+
+def run_spawn_lookup(chk, exe, tier, broken, model_ok):
+    rng = chk.rng
+    tables = spawn_lookup_tables(rng, tier)
+    cases = [(names, rng.choice([1, 1, 2, 3]), rng.choice([0, 7, 1000])) for names in tables]
+    lines = [spawnx_line(*c) for c in cases]
+    real = wp.batch_once(exe, lines)
+    model = vlib.DriverProc(PATHSDRIVER).batch(lines) if model_ok else None
+    hist = {"no_exact_name": 0, "exact_first": 0, "exact_after_lookalike": 0, "empty_table": 0}
+    for i, (names, ncalls, argbase) in enumerate(cases):
+        exp = spawnx_expected(names, ncalls, argbase)
+        r = real[i]
+        idx = next((j for j, n in enumerate(names) if n == EXACT), None)
+        pre = [n for n in names[:idx if idx is not None else len(names)] if n.startswith(EXACT)]
+        hist["empty_table" if not names else "no_exact_name" if idx is None else "exact_after_lookalike" if pre else "exact_first"] += 1
+        chk.count_case(lines[i], True, {"exports": names, "calls": ncalls, "real": r[:80], "model": model[i][:80] if model else None} if i % 25 == 3 else None)
+        if r != exp:
+            if idx is None and "ran -" not in r:
+                key, why = "spawn-export-lookalike-taken", "no export is named exactly wasi_thread_start, so every thread-spawn call must return a negative value and start nothing"
+            elif idx is not None and r.startswith("ret 1") and f" ran {idx}:" not in r:
+                key, why = "spawn-export-wrong-entry", f"the thread entry must be export #{idx} (the first one named exactly wasi_thread_start)"
+            else:
+                key, why = "spawn-export-lookup", "export lookup / returned ids / start calls differ from the property"
+            chk.violation(key, f"thread-spawn on a module whose function exports are {names!r} ({ncalls} call(s), start arg {argbase}…): {why}; real `{r[:160]}`, required `{exp[:160]}` (format: returned values; `ran export#:tid:arg:childOk`)",
+                          {"kind": "spawnx", "exports": names, "calls": ncalls, "argbase": argbase, "line": lines[i], "real": r, "expected": exp}, True)
+        if model is not None and model[i] != r:
+            broken.append({"kind": "correspondence", "msg": f"thread-spawn export lookup {names!r}: real `{r[:100]}` model `{model[i][:100]}`"})
+    chk.coverage["spawn_export_tables"] = {"cases": len(cases), "shapes": hist, "lookalike_names": len(LOOKALIKES)}
+
+
 def newchild_shares_memory(repo):
     """Source-level check for the one fact the spawn model takes from w2c2/c.c: NewChild calls
     InitMemories(child, self), and InitMemories takes a shared memory from `parent` when given."""
@@ -291,6 +370,7 @@ def run(tier):
         run_random(chk, h, tier, broken, model_ok)
         run_exit(chk, h, tier, broken, model_ok)
         run_spawn(chk, h, tier, broken, model_ok)
+        run_spawn_lookup(chk, exe, tier, broken, model_ok)
         if not newchild_shares_memory(repo):
             broken.append({"kind": "correspondence", "msg": "w2c2/c.c: NewChild no longer calls InitMemories(child, self) / InitMemories no longer takes shared memories from the parent"})
         chk.coverage["harness_crashes"] = h.crashes
@@ -321,6 +401,10 @@ def replay(path):
         if kind == "random":
             out = h.ask(f"random {r['len']}")
             print(f"replay random_get(len={r['len']}): real `{out}` (errno, bytes written, outside changed), required `{r['expected']}`")
+            rc = 0 if out == r["expected"] else 1
+        elif kind == "spawnx":
+            out = h.ask(spawnx_line(r["exports"], r["calls"], r["argbase"]))
+            print(f"replay thread-spawn x{r['calls']} with function exports {r['exports']!r}: real `{out[:200]}`, required `{r['expected'][:200]}`")
             rc = 0 if out == r["expected"] else 1
         elif kind in ("vector", "clock", "spawn"):
             out = h.ask(r["line"])
